@@ -65,6 +65,7 @@ type epoch struct {
 
 	sendCh  chan *sendRequest // PER-GENERATION async send channel; GC'd with the epoch (dissolves C1)
 	replies replyRegistry     // per-generation sender-owned reply channels (dissolves F5/F6)
+	dataTx  sync.Map          // System Bytes ([4]byte) of the open DATA transactions registered in replies (see RouteReply)
 	writeMu sync.Mutex        // serializes the writev over conn (§6.2)
 
 	// commsFailure records the teardown CAUSE for this generation (E37 §9.1.1, spec §5.2/§9.1.1).
